@@ -1423,7 +1423,8 @@ func cfgValid(cfg *ResponseConfig) bool {
 //@ func verifyAndFillConfig
 //@   requires cfg != nil
 //@   ensures  valid: result == nil ==> (cfg.TimeShiftBufferDepthS == nil || (*cfg.TimeShiftBufferDepthS >= 0 && *cfg.TimeShiftBufferDepthS <= MAX_TIME_SHIFT_BUFFER_DEPTH_S)) && (cfg.PeriodsPerHour == nil || (*cfg.PeriodsPerHour >= 1 && *cfg.PeriodsPerHour <= 3600)) && cfg.TimeSubsDurMS >= 1 && cfg.TimeSubsDurMS <= 1000 && (cfg.SCTE35PerMinute == nil || (*cfg.SCTE35PerMinute >= 1 && *cfg.SCTE35PerMinute <= 3))
-//@   ensures  kept: cfg.TimeShiftBufferDepthS == old(cfg.TimeShiftBufferDepthS) && cfg.PeriodsPerHour == old(cfg.PeriodsPerHour) && cfg.TimeSubsDurMS == old(cfg.TimeSubsDurMS) && cfg.SCTE35PerMinute == old(cfg.SCTE35PerMinute) && cfg.SegStatusCodes == old(cfg.SegStatusCodes) && cfg.Traffic == old(cfg.Traffic)
+//@   ensures  stopNotBeforeStart: result == nil ==> (cfg.StopTimeS == nil || *cfg.StopTimeS >= cfg.StartTimeS)
+//@   ensures  kept: cfg.StopTimeS == old(cfg.StopTimeS) && cfg.StartTimeS == old(cfg.StartTimeS) && cfg.TimeShiftBufferDepthS == old(cfg.TimeShiftBufferDepthS) && cfg.PeriodsPerHour == old(cfg.PeriodsPerHour) && cfg.TimeSubsDurMS == old(cfg.TimeSubsDurMS) && cfg.SCTE35PerMinute == old(cfg.SCTE35PerMinute) && cfg.SegStatusCodes == old(cfg.SegStatusCodes) && cfg.Traffic == old(cfg.Traffic)
 //@   assigns  cfg.LatencyTargetMS
 //@   allocates
 
@@ -1432,7 +1433,8 @@ func cfgValidScalars(cfg *ResponseConfig) bool {
 	return cfg != nil && cfg.TimeShiftBufferDepthS != nil && *cfg.TimeShiftBufferDepthS >= 0 && *cfg.TimeShiftBufferDepthS <= MAX_TIME_SHIFT_BUFFER_DEPTH_S &&
 		(cfg.PeriodsPerHour == nil || (*cfg.PeriodsPerHour >= 1 && *cfg.PeriodsPerHour <= 3600)) &&
 		cfg.TimeSubsDurMS >= 1 && cfg.TimeSubsDurMS <= 1000 &&
-		(cfg.SCTE35PerMinute == nil || (*cfg.SCTE35PerMinute >= 1 && *cfg.SCTE35PerMinute <= 3))
+		(cfg.SCTE35PerMinute == nil || (*cfg.SCTE35PerMinute >= 1 && *cfg.SCTE35PerMinute <= 3)) &&
+		(cfg.StopTimeS == nil || *cfg.StopTimeS >= cfg.StartTimeS)
 }
 
 // processURLCfg: never crashes, and an accepted URL yields a configuration whose scalar
@@ -1447,6 +1449,13 @@ func cfgValidScalars(cfg *ResponseConfig) bool {
 //@   noframe
 //@   loop 1 invariant 0 <= rangeidx && rangeidx <= len(urlParts) && cfg != nil && fresh(cfg) && sc != nil
 //@   loop 1 invariant sc.err == nil ==> cfg.TimeShiftBufferDepthS != nil
+
+// cfgFromRequest: a request is only handed on with a validated configuration and an instant
+// that is not before availabilityStartTime (earlier requests are answered 425).
+//@ func cfgFromRequest
+//@   wiring
+//@   returns  (nowMS, cfg, errHT)
+//@   exit 7 requires handedOnOnlyFromStart: errHT == nil && cfg != nil && nowMS >= cfg.StartTimeS*1000 && cfgValidScalars(cfg)
 
 // ---------------------------------------------------------------------------
 // C07: responses are a function of (URL, time): shared state is read-only while serving,
@@ -1705,6 +1714,7 @@ func encWanted(codec string) bool { return strHasPrefix(codec, "avc") || strHasP
 //@ func LiveMPD
 //@   wiring
 //@   callsite calcWrapTimes requires windowEndsAtStop: (cfg.StopTimeS == nil ==> arg_nowMS == nowMS && !afterStop) && (cfg.StopTimeS != nil ==> arg_nowMS == min(nowMS, *cfg.StopTimeS*1000) && afterStop == (*cfg.StopTimeS*1000 < nowMS))
+//@   callsite calcWrapTimes requires windowNotBeforeStart: nowMS >= cfg.StartTimeS*1000 && (cfg.StopTimeS == nil || *cfg.StopTimeS >= cfg.StartTimeS) ==> arg_nowMS >= cfg.StartTimeS*1000
 //@   callsite calcWrapTimes requires windowDepthFromCfg: cfg.TimeShiftBufferDepthS != nil ==> int(arg_tsbd) == *cfg.TimeShiftBufferDepthS * 1000000000
 //@   callsite (*asset).generateTimelineEntries requires windowAndOffsetHandedOn: arg_wt == wTimes && arg_atoMS == atoMS && arg_repID == as.Representations[0].Id
 //@   callsite (*asset).generateTimelineEntriesFromRef requires audioFollowsReference: arg_refSE == refSegEntries && arg_repID == as.Representations[0].Id && as.ContentType == "audio" && asIdx != 0
